@@ -502,4 +502,77 @@ theorem specK_partials (cfg : Cfg) (hm : cfg.maxSize = 0) (cs : List (Nat × Byt
     rw [ih ⟨ln.inners ++ [p.2], ln.size + p.1, false⟩ rfl hr (by simp only []; omega)]
     simp [Nat.add_assoc]
 
+
+/-! ### the end-of-line test means "the text ends with a newline" -/
+
+def rEsc (r : Bytes) : Bytes := r.flatMap (fun b => (escByte b).reverse)
+
+theorem esc_reverse (t : Bytes) : (esc t).reverse = rEsc t.reverse := by
+  simp [esc, rEsc, List.reverse_flatMap, Function.comp_def]
+
+theorem escByte_bslash : escByte BSLASH = [BSLASH, BSLASH] := by simp [escByte]
+theorem escByte_nl : escByte NL = [BSLASH, LOWER_N] := by
+  have : NL ≠ BSLASH := by decide
+  simp [escByte, this]
+theorem escByte_other {b : UInt8} (h1 : b ≠ BSLASH) (h2 : b ≠ NL) : escByte b = [b] := by
+  simp [escByte, h1, h2]
+
+theorem rEsc_cons (b : UInt8) (r : Bytes) : rEsc (b :: r) = (escByte b).reverse ++ rEsc r := by
+  simp [rEsc]
+
+theorem rEsc_even (r : Bytes) : ((rEsc r).takeWhile (· == BSLASH)).length % 2 = 0 := by
+  induction r with
+  | nil => simp [rEsc]
+  | cons b r ih =>
+    rw [rEsc_cons]
+    by_cases h1 : b = BSLASH
+    · subst h1
+      rw [escByte_bslash]
+      simp only [List.reverse_cons, List.reverse_nil, List.nil_append, List.cons_append,
+        List.takeWhile_cons, beq_self_eq_true, ↓reduceIte, List.length_cons]
+      omega
+    · by_cases h2 : b = NL
+      · subst h2
+        rw [escByte_nl]
+        have : (LOWER_N == BSLASH) = false := by decide
+        simp [List.takeWhile_cons, this]
+      · rw [escByte_other h1 h2]
+        have : (b == BSLASH) = false := by simpa using h1
+        simp [List.takeWhile_cons, this]
+
+/-- on escaped text the test holds exactly when the text ends with a newline -/
+theorem contentEndsLine_esc (t : Bytes) : contentEndsLine (esc t) = (t.getLast? == some NL) := by
+  unfold contentEndsLine
+  rw [esc_reverse]
+  have hl : t.getLast? = t.reverse.head? := by simp
+  rw [hl]
+  cases hr : t.reverse with
+  | nil => simp [rEsc]
+  | cons b r =>
+    rw [rEsc_cons]
+    have hev := rEsc_even r
+    by_cases h1 : b = BSLASH
+    · subst h1
+      rw [escByte_bslash]
+      have e1 : (BSLASH == LOWER_N) = false := by decide
+      have e2 : (BSLASH == NL) = false := by decide
+      simp [e1, e2]
+    · by_cases h2 : b = NL
+      · subst h2
+        rw [escByte_nl]
+        simp only [List.reverse_cons, List.reverse_nil, List.nil_append, List.cons_append,
+          List.head?_cons, beq_self_eq_true, Bool.true_and, List.takeWhile_cons, ↓reduceIte,
+          List.length_cons]
+        have : ((List.takeWhile (fun x => x == BSLASH) (rEsc r)).length + 1) % 2 = 1 := by omega
+        simp [this]
+      · rw [escByte_other h1 h2]
+        have e3 : (b == NL) = false := by simpa using h2
+        simp only [List.reverse_cons, List.reverse_nil, List.nil_append, List.cons_append,
+          List.head?_cons]
+        by_cases h3 : b = LOWER_N
+        · subst h3
+          simp [hev, e3]
+        · have : (b == LOWER_N) = false := by simpa using h3
+          simp [this, e3]
+
 end FileD.K8s
